@@ -255,27 +255,6 @@ theorem removeTablesW_reframe (o : ObsMgr) (lg : List LogEv) (lk : Lock) :
     simp only [removeTablesW, List.foldl_cons, removeTableW_reframe]
     exact removeTablesW_reframe o lg lk ts _
 
-/-- `getBatchTables` neither reads nor writes observers, log and lock -/
-theorem frames_getBatchTables (fo : FilterObj) (extra : List RelID) :
-    Frames (getBatchTables fo extra) := by
-  intro w o lg lk
-  unfold getBatchTables
-  simp only []
-  have h1 : ∀ id, (w.reframe o lg lk).cacheEntry? id = w.cacheEntry? id := fun _ => rfl
-  have h2 : ∀ f r, (w.reframe o lg lk).getCacheTables f r = w.getCacheTables f r := fun _ _ => rfl
-  have h3 : ∀ t, (w.reframe o lg lk).tbl t = w.tbl t := fun _ => rfl
-  cases fo.cache with
-  | none =>
-    simp only [h2]
-    cases w.getCacheTables fo.filter (effRels fo extra) <;> rfl
-  | some id =>
-    simp only [h1]
-    cases w.cacheEntry? id with
-    | none => rfl
-    | some ce =>
-      simp only [h3]
-      split <;> rfl
-
 /-- the cleanup part of `RemoveEntities` on a world without relation targets -/
 theorem NoTargets.addLog {X : World} (h : NoTargets X) (lg : List LogEv) : NoTargets (X.addLog lg) := h
 
